@@ -496,10 +496,13 @@ fn flatten_product<'a>(e: &'a Expr, out: &mut Vec<&'a Expr>) {
 }
 
 /// Decode `self.base_address + LIT [(+|-) index as T * STRIDE]`.
-/// Returns (address, Option<(op, stride_abs)>).
-fn decode_address_calc(e: &Expr) -> Res<(String, Option<(String, String)>)> {
+/// Returns (address, Option<(op, stride_abs)>, order) where `order` spells the sequence of the terms as
+/// emitted (`b` = base, `a` = literal address, `i` = index term): the sum is evaluated left to right in
+/// the internal address type, so the order decides which intermediate values must fit it.
+fn decode_address_calc(e: &Expr) -> Res<(String, Option<(String, String)>, String)> {
     let mut terms = Vec::new();
     flatten_sum(e, false, &mut terms);
+    let mut order = String::new();
 
     let mut base_seen = false;
     let mut address: Option<String> = None;
@@ -511,11 +514,13 @@ fn decode_address_calc(e: &Expr) -> Res<(String, Option<(String, String)>)> {
                 return Err(format!("unexpected use of `self.base_address` in `{}`", show(e)));
             }
             base_seen = true;
+            order.push('b');
         } else if let Some(lit) = int_of_expr(term.expr) {
             if address.is_some() {
                 return Err(format!("more than one literal address term in `{}`", show(e)));
             }
             address = Some(if term.negative { negate_decimal(&lit) } else { lit });
+            order.push('a');
         } else if mentions_ident(term.expr, "index") {
             if index_term.is_some() {
                 return Err(format!("more than one index term in `{}`", show(e)));
@@ -544,6 +549,7 @@ fn decode_address_calc(e: &Expr) -> Res<(String, Option<(String, String)>)> {
             };
             let op = if term.negative != flip { "-" } else { "+" };
             index_term = Some((op.to_string(), stride_abs));
+            order.push('i');
         } else {
             return Err(format!("unexpected term `{}` in address calculation", show(term.expr)));
         }
@@ -553,7 +559,7 @@ fn decode_address_calc(e: &Expr) -> Res<(String, Option<(String, String)>)> {
         return Err(format!("no `self.base_address` term in `{}`", show(e)));
     }
     let address = address.ok_or_else(|| format!("no literal address term in `{}`", show(e)))?;
-    Ok((address, index_term))
+    Ok((address, index_term, order))
 }
 
 /// `assert!(index < COUNT)` → COUNT
@@ -677,15 +683,15 @@ fn block_method(f: &ImplItemFn) -> Res<Value> {
         Expr::Block(b) => {
             let count = assert_count(&b.block)?;
             let calc = tail_expr(&b.block).ok_or("repeated address block has no tail expression")?;
-            let (address, index_term) = decode_address_calc(calc)?;
+            let (address, index_term, order) = decode_address_calc(calc)?;
             let (op, stride_abs) = index_term.ok_or_else(|| format!("no index term in `{}`", show(calc)))?;
             (
                 address,
-                json!({"count": count, "op": op, "stride_abs": stride_abs}),
+                json!({"count": count, "op": op, "stride_abs": stride_abs, "order": order}),
             )
         }
         other => {
-            let (address, index_term) = decode_address_calc(other)?;
+            let (address, index_term, _order) = decode_address_calc(other)?;
             match index_term {
                 None => (address, Value::Null),
                 // Tolerate an index term without the surrounding assert block? No: the count is part of the facts.
